@@ -379,7 +379,7 @@ def diff_observations(a, b, names=None, rename=None, strict=False):
                 # a name may be an anchor in one build and a named constant in the other
                 eb = b["const" if kind == "out" else "out"].get(nb)
             if eb is None:
-                if strict:
+                if strict is True:
                     out.append({"name": name, "what": "named result observable in the first build only", "a": ea})
                 continue
             sa, sb = ea.get("signals"), eb.get("signals")
